@@ -2,7 +2,12 @@
    fn 1: Record.add_protocluster* ; Record.create_candidate_clusters() ; Record.get_candidate_clusters()
    fn 2: create_candidates_from_protoclusters(list in a given order, wrap point)
    fn 3: _merge_sets(groups)
-   fn 101/102: the decidable specification evaluated on the implementation's output of fn 1/2."""
+   fn 101/102/103: the decidable specification evaluated on the implementation's output of fn 1/2/3
+   (101/102: six structural clauses + six clauses about the meaning of the kinds; 103: _merge_sets returns the
+   transitive groups); fn 21/22: class information for the known findings about the meaning of the kinds (does the
+   bisect window / the restriction to hit-less singles change the model's result, does the model with both
+   proposed repairs meet every clause); fn 11/12: class of the repaired finding joint_core_wraps_assert.
+   Order independence is also observed on the implementation alone (Record level vs direct call, two orders)."""
 import itertools
 import json
 
@@ -487,6 +492,22 @@ def kinds_of(out):
     return kinds
 
 
+def canon_cands(out):
+    """ encoded candidate list -> sorted list of (kind, members, location) """
+    if not out or out[0] != 0:
+        return None
+    res = []
+    pos = 2
+    for _ in range(out[1]):
+        kind, nmem = out[pos], out[pos + 1]
+        members = tuple(out[pos + 2:pos + 2 + nmem])
+        pos += 2 + nmem
+        nparts = out[pos]
+        res.append((kind, members, tuple(out[pos + 1:pos + 1 + 3 * nparts])))
+        pos += 1 + 3 * nparts
+    return sorted(res)
+
+
 def crossing_hybrid_core(flat, out):
     """ class test of the repaired finding `hybrid_member_repeated` (used only to label a violation): circular
         record, and every candidate with a repeated member is a chemical hybrid """
@@ -549,7 +570,39 @@ CORPUS = [
                 (2, [(80, 100, 1), (0, 20, 1)], [(3, 10, 1)], 2), (3, [(80, 100, 1), (0, 20, 1)], [(4, 9, 1)], 3),
                 (4, [(75, 100, 1)], [(95, 99, 1)], 4), (5, [(30, 50, 1)], [(38, 44, 1)], 5),
                 (6, [(30, 50, 1)], [(39, 45, 1)], 6)]},
+    # witnesses of the known findings about the MEANING of the kinds (linear records):
+    # candidate_index_window, interleaved: hybrid {0,1} [0:1000] core [100:900], two short hybrids after it in sort
+    # order, protocluster 6 whose core overlaps the first hybrid's core is looked up in candidates[bisect-1:] only
+    {"n": 1200, "circular": False,
+     "genes": [(0, [(100, 110, 1)], [0, 1]), (1, [(12, 14, 1)], [2, 3]), (2, [(32, 34, 1)], [4, 5])],
+     "protos": [(0, [(0, 1000, 1)], [(100, 900, 1)], 0), (1, [(0, 1000, 1)], [(100, 120, 1)], 1),
+                (2, [(10, 20, 1)], [(12, 14, 1)], 2), (3, [(10, 20, 1)], [(11, 15, 1)], 3),
+                (4, [(30, 40, 1)], [(32, 34, 1)], 4), (5, [(30, 40, 1)], [(31, 35, 1)], 5),
+                (6, [(880, 1100, 1)], [(890, 950, 1)], 6)]},
+    # candidate_index_window, neighbouring: protocluster 6 [50:60] lies inside hybrid {2,3} [6:100] but only the
+    # first candidate {0,1} and the one before the insertion point {4,5} are looked at
+    {"n": 200, "circular": False,
+     "genes": [(0, [(1, 3, 1)], [0, 1]), (1, [(30, 32, 1)], [2, 3]), (2, [(12, 14, 1)], [4, 5])],
+     "protos": [(0, [(0, 5, 1)], [(1, 3, 1)], 0), (1, [(0, 5, 1)], [(1, 4, 1)], 1),
+                (2, [(6, 100, 1)], [(30, 32, 1)], 2), (3, [(6, 100, 1)], [(29, 33, 1)], 3),
+                (4, [(10, 20, 1)], [(12, 14, 1)], 4), (5, [(10, 20, 1)], [(11, 15, 1)], 5),
+                (6, [(50, 60, 1)], [(52, 55, 1)], 6)]},
+    # neighbouring_singles_not_linked: 4 [5:30] and 5 [25:50] overlap each other, each also overlaps a hybrid
+    # ([0:10] and [45:60]); singles that hit a candidate are not compared with each other
+    {"n": 200, "circular": False,
+     "genes": [(0, [(2, 4, 1)], [0, 1]), (1, [(50, 52, 1)], [2, 3])],
+     "protos": [(0, [(0, 10, 1)], [(2, 4, 1)], 0), (1, [(0, 10, 1)], [(1, 5, 1)], 1),
+                (2, [(45, 60, 1)], [(50, 52, 1)], 2), (3, [(45, 60, 1)], [(49, 53, 1)], 3),
+                (4, [(5, 30, 1)], [(12, 14, 1)], 4), (5, [(25, 50, 1)], [(31, 35, 1)], 5)]},
 ]
+
+
+# witness of the known finding supply_order_same_key_groups: protoclusters 2 and 3 share coordinates and core, the two
+# hybrid groups {0,2} and {1,3} both span [5:165]; supply order 2,3 gives a single for 1, supply order 3,2 a single for 0
+ORDER_WITNESS = ({"n": 165, "circular": False, "genes": [(0, [(25, 110, 1)], [3, 4]), (1, [(115, 160, 1)], [2, 7])],
+                  "protos": [(0, [(105, 165, 1)], [(105, 160, 1)], 2), (1, [(25, 150, 1)], [(25, 110, 1)], 4),
+                             (2, [(5, 165, 1)], [(20, 160, 1)], 7), (3, [(5, 165, 1)], [(20, 160, 1)], 3)]},
+                 [0, 1, 2, 3], [0, 1, 3, 2])
 
 
 def run(chk):
@@ -562,12 +615,12 @@ def run(chk):
     skipped = 0
 
     def add(flat, out, spec_fn, sample):
-        if spec_fn is not None and cyclic_order(sample["config"], out):
+        if spec_fn is not None and "config" in sample and cyclic_order(sample["config"], out):
             # CDSCollection.__lt__ is not a strict weak order here (a whole-record location is "less" than an
             # origin-crossing one by the containment shortcut and "greater" by the negative wrapped start):
             # the result of Python's sort then depends on the sort algorithm, which the model does not transcribe
             chk.count("not_compared_cyclic_lt_whole_record_vs_origin_crossing")
-            return
+            return None
         cases.append(flat)
         impl_outs.append(out)
         if spec_fn is not None:
@@ -579,6 +632,18 @@ def run(chk):
         if out and out[0] == 1 and flat[1] != 3:
             chk.count("error_" + common.ERR_NAME.get(out[1], str(out[1])))
         chk.note_case(flat, nontrivial, sample)
+        return len(cases) - 1
+
+    order_pairs = []   # (case index a, case index b, exact?, config, [order a, order b]): outputs to be compared
+
+    # witness of the known finding supply_order_same_key_groups, run first in two supply orders
+    for order in ORDER_WITNESS[1:]:
+        out, defs = impl_direct(ORDER_WITNESS[0], order)
+        idx = add(flat_direct(ORDER_WITNESS[0], order, defs), out, 102,
+                  {"function": 2, "config": ORDER_WITNESS[0], "order": order, "protos": ORDER_WITNESS[0]["protos"],
+                   "implementation": out})
+        if order is not ORDER_WITNESS[1]:
+            order_pairs.append((idx - 1, idx, True, ORDER_WITNESS[0], list(ORDER_WITNESS[1:])))
 
     for i in range(total):
         r = rng.random()
@@ -599,26 +664,43 @@ def run(chk):
         rng.shuffle(orders[0])
         if nprot <= 3 and rng.random() < 0.3:
             orders = [list(o) for o in itertools.permutations(range(nprot))]
+        rec_idx, rec_order = None, None
         for order in orders:
             out, problem = impl_record(config, order)
             if out is None:
                 skipped += 1
                 chk.count("skipped_invalid_configuration")
                 break
-            add(flat_record(config, order), out, 101, {"function": 1, "config": config, "order": order,
-                                                         "protos": config["protos"], "implementation": out})
+            idx = add(flat_record(config, order), out, 101, {"function": 1, "config": config, "order": order,
+                                                               "protos": config["protos"], "implementation": out})
+            if idx is not None and rec_idx is not None:
+                order_pairs.append((rec_idx, idx, False, config, [rec_order, order]))
+            rec_idx, rec_order = idx, order
         else:
             order = list(range(nprot))
             rng.shuffle(order)
             out, defs = impl_direct(config, order)
             if out is not None:
-                add(flat_direct(config, order, defs), out, 102, {"function": 2, "config": config, "order": order,
-                                                                   "protos": config["protos"], "implementation": out})
+                idx = add(flat_direct(config, order, defs), out, 102, {"function": 2, "config": config, "order": order,
+                                                                         "protos": config["protos"], "implementation": out})
+                # order independence, observed on the implementation alone: the Record-level result (another supply
+                # order) has the same candidates, and a second direct call on yet another order returns the same list
+                if idx is not None and rec_idx is not None:
+                    order_pairs.append((rec_idx, idx, False, config, [rec_order, order]))
+                if idx is not None and i % 4 == 1 and nprot >= 2:
+                    order2 = list(range(nprot))
+                    rng.shuffle(order2)
+                    out2, _ = impl_direct(config, order2)
+                    idx2 = add(flat_direct(config, order2, defs), out2, 102,
+                               {"function": 2, "config": config, "order": order2, "protos": config["protos"],
+                                "implementation": out2})
+                    if idx2 is not None:
+                        order_pairs.append((idx, idx2, True, config, [order, order2]))
             if i % 4 == 0 and nprot >= 3:
                 groups = []
                 for _ in range(rng.randint(1, 7)):
                     groups.append(sorted(rng.sample(range(nprot), rng.choice([1, 2, 2, 2, 3]))))
-                add(flat_merge(config, groups), impl_merge(config, groups), None,
+                add(flat_merge(config, groups), impl_merge(config, groups), 103,
                     {"function": 3, "groups": groups})
                 chk.count("merge_sets")
     chk.extra["skipped_invalid_configurations"] = skipped
@@ -626,12 +708,42 @@ def run(chk):
     model_outs = common.correspondence(chk, cases, impl_outs, spec_fn_offset=None, describe=describe)
     # the decidable specification on every implementation output
     verdicts = common.run_driver([s for _, s in specs])
-    # no class of C05 is recorded as `known` any more (hybrid_member_repeated and joint_core_wraps_assert are repaired
-    # in the code): nothing is suppressed below unless an entry with status `known` is added again
     known = {f["class"]: f for f in common.load_known_findings("C05") if f.get("status") == "known"}
+    # order independence observed on the implementation: same candidates for two supply orders (the identical list
+    # for two direct calls).  Known finding supply_order_same_key_groups: suppressed only if the class is recorded as
+    # known, two protoclusters of the configuration have identical coordinates (the only inputs on which sorted()
+    # keeps the supply order; for pairwise different coordinates C05_order_independent_linear applies), and the
+    # faithful model reproduces BOTH outputs
+    chk.extra["order_independence_pairs"] = len(order_pairs)
+    for idx_a, idx_b, exact, config, pair_orders in order_pairs:
+        out_a, out_b = impl_outs[idx_a], impl_outs[idx_b]
+        same = (out_a == out_b) if exact else (out_a[0] != 0 or out_b[0] != 0 or canon_cands(out_a) == canon_cands(out_b))
+        if same:
+            continue
+        chk.count("order_dependent_outputs")
+        coords = [tuple((a, b) for a, b, _ in p[1]) for p in config["protos"]]
+        tie = len(set(coords)) < len(coords)
+        if "supply_order_same_key_groups" in known and tie \
+                and model_outs[idx_a] == out_a and model_outs[idx_b] == out_b:
+            chk.known(known["supply_order_same_key_groups"]["what_fails"])
+            chk.count("known_supply_order_same_key_groups")
+            continue
+        chk.violation("counterexample", "the candidates depend on the order in which the protoclusters were supplied"
+                      + (" (input in class supply_order_same_key_groups)" if tie else ""),
+                      {"theorem_or_correspondence": "C05 order independence (observed on the implementation)",
+                       "config": config, "orders": pair_orders, "outputs": [out_a, out_b],
+                       "flat": cases[idx_b], "implementation": out_b, "model": model_outs[idx_b]})
     raised = 0
-    clause_names = ["every protocluster covered", "members are protoclusters of the record", "no repeated member",
-                    "group sizes fit the kind", "location = connect_locations(members)", "unique coordinates+membership"]
+    base_names = ["every protocluster covered", "members are protoclusters of the record", "no repeated member",
+                  "group sizes fit the kind", "location = connect_locations(members)", "unique coordinates+membership"]
+    kind_names = ["every transitive group sharing defining genes lies in one chemical hybrid",
+                  "every transitive group of overlapping cores lies in one interleaved (or hybrid) candidate",
+                  "every transitive group of overlapping extents lies in one candidate",
+                  "a neighbouring candidate is exactly one transitive group of overlapping extents",
+                  "an interleaved candidate is connected by overlapping cores",
+                  "a protocluster outside hybrid/interleaved candidates has its single (or a same-coordinate parent)"]
+    clause_names = base_names + kind_names
+    nverdict = 1 + len(clause_names)
     # class test of the repaired finding `joint_core_wraps_assert`, computed by the model (fn 11 / 12) for the
     # cases on which the implementation raised (labels a violation if the defect returns)
     # ... and for every circular case, to show that the class is exercised (it no longer raises)
@@ -639,8 +751,25 @@ def run(chk):
                   if verdict == [2] or (cases[idx][1] == 1 and cases[idx][3] == 1) or (cases[idx][1] == 2 and cases[idx][2] == 1)]
     class_flags = dict(zip(raised_idx, common.run_driver([[PROP, cases[i][1] + 10] + cases[i][2:] for i in raised_idx])))
     chk.extra["cases_in_class_joint_core_wraps_assert"] = sum(1 for flag in class_flags.values() if flag == [1])
+    # classes of the findings about the meaning of the kinds (fn 21 / 22), for the cases on which only kind clauses
+    # fail: [the bisect window / early break changes the model's result, the restriction of the single/single
+    # comparison to hit-less singles changes it, the model with both proposed repairs meets every clause]
+    kind_idx = [idx for (idx, _c), verdict in zip(specs, verdicts)
+                if len(verdict) == nverdict and verdict[0] == 0 and all(verdict[1:1 + len(base_names)])]
+    kind_info = dict(zip(kind_idx, common.run_driver([[PROP, cases[i][1] + 20] + cases[i][2:] for i in kind_idx])))
+    KIND_CLASSES = ["candidate_index_window", "neighbouring_singles_not_linked"]
     for (idx, _spec_case), verdict in zip(specs, verdicts):
-        if verdict and verdict[0] == 1 and len(verdict) == 7:
+        if cases[idx][1] == 3:
+            # _merge_sets: the returned groups must be exactly the transitive groups of the supplied sets
+            if verdict != [1]:
+                chk.count("spec_failed: _merge_sets")
+                chk.violation("counterexample", "_merge_sets does not return the transitive groups of the supplied sets "
+                              "(disjoint, complete, nothing merged that is not linked by shared members)",
+                              {"theorem_or_correspondence": "C05_merge_sets_components as a decidable check (fn 103)",
+                               "flat": cases[idx], "implementation": impl_outs[idx], "model": model_outs[idx],
+                               "input": describe(cases[idx]), "spec_verdict": verdict})
+            continue
+        if verdict and verdict[0] == 1 and len(verdict) == nverdict:
             continue
         if verdict == [2]:
             raised += 1
@@ -654,13 +783,27 @@ def run(chk):
                 chk.count("known_joint_core_wraps_assert")
                 continue
             chk.violation("counterexample", "candidate cluster formation raises on a valid set of protoclusters"
-                          + (" (class joint_core_wraps_assert, repaired in the code: the defect is back)" if in_class else ""),
+                          + (" (the input is in the class of the repaired finding joint_core_wraps_assert)" if in_class else ""),
                           {"theorem_or_correspondence": "C05 spec_ok (formation must cover every protocluster)",
                            "flat": cases[idx], "implementation": impl_outs[idx], "model": model_outs[idx],
                            "input": describe(cases[idx])})
             continue
-        failed = [name for name, ok in zip(clause_names, verdict[1:]) if not ok] if len(verdict) == 7 else ["undecodable"]
+        failed = [name for name, ok in zip(clause_names, verdict[1:]) if not ok] if len(verdict) == nverdict else ["undecodable"]
         chk.count("spec_failed: " + "; ".join(failed))
+        # known findings about the meaning of interleaved / neighbouring: suppressed only if nothing but kind clauses
+        # fails, implementation == faithful model, the input is in the class of a finding (the corresponding repair
+        # changes the model's result), every class it is in is recorded as known, and the model with both proposed
+        # repairs meets every clause on this input (so the failure is explained by exactly these defects)
+        info = kind_info.get(idx)
+        if info is not None and len(info) >= 3 and model_outs[idx] == impl_outs[idx]:
+            in_classes = [name for name, flag in zip(KIND_CLASSES, info[:2]) if flag]
+            if in_classes and info[2] == 1 and all(name in known for name in in_classes):
+                for name in in_classes:
+                    chk.known(known[name]["what_fails"])
+                    chk.count("known_" + name)
+                continue
+            if in_classes:
+                failed = failed + ["(input in class " + "+".join(in_classes) + ")"]
         # repaired finding: a hybrid whose joint core crosses the origin listed a contained protocluster twice.
         # Would be suppressed only if exactly that clause fails, the class is recorded as known again and
         # implementation == model.
@@ -673,7 +816,7 @@ def run(chk):
         chk.violation("counterexample", "implementation output violates the C05 specification: " + "; ".join(failed),
                       {"theorem_or_correspondence": "C05 spec_ok", "flat": cases[idx], "implementation": impl_outs[idx],
                        "model": model_outs[idx], "input": describe(cases[idx]), "spec_verdict": verdict,
-                       "failed_clauses": failed})
+                       "failed_clauses": failed, "class_info": info})
     chk.extra["spec_evaluated"] = len(specs)
     chk.extra["implementation_raised"] = raised
     chk.crosscheck_vm(cases, model_outs)
